@@ -140,30 +140,142 @@ def do_scale(obj, s, variant, S, F):
 
 
 # --------------------------------------------------------------------------- S2C: histogram operations
+# magnitudes (exponents of two) for the edges and the contents of a replayed histogram history;
+# E ** dim * C must stay finite in 3 dimensions
+HIST_MAGS = [(0, 0), (0, 0), (-300, 0), (300, -100), (-30, 40), (100, 100), (0, -200), (-100, 300)]
+# magnitudes of the edges in add-with-tolerance scenarios: 1e-298 ... 1e298
+TOL_MAGS = [0, -30, 30, -100, 100, -300, 300, -990, 990]
+
+
+CONV_MAGS = [(0, 0), (0, 0), (-30, 20), (60, -40), (300, 300), (-300, -300), (-990, 0), (0, 990)]
+
+
+def mag_class(e):
+    return "unit" if e == 0 else ("tiny" if e < 0 else "huge")
+
+
+def replay_addtol(S, start, op, k, report, extra, mags):
+    """hist.add(other, w[, edges_abs_tol, edges_rel_tol]) where other has the edges of hist but for one edge,
+    at every magnitude of the edges (the decision is relative, abs_tol is scaled along)."""
+    gedges = start["edges"]
+    dim = len(gedges)
+    pert, tol = op["pert"], op["tol"]
+    w = op["w"]
+    for mi, e in enumerate(mags):
+        for per_axis in ((False, True) if dim > 1 else (False,)):
+            # the same magnitude on every axis, or another one on the axes that are not perturbed
+            exps = [e] * dim
+            if per_axis:
+                paxis = pert["axis"] - 1 if pert["kind"] != "none" else 0
+                exps = [e if d == paxis else mags[(mi + 3 + d) % len(mags)] for d in range(dim)]
+            muls = [2.0 ** x for x in exps]
+            mine = [[x * muls[d] for x in gedges[d]] for d in range(dim)]
+            theirs = copy.deepcopy(mine)
+            pm = muls[0]
+            if pert["kind"] != "none":
+                d, pos = pert["axis"] - 1, pert["pos"] - 1
+                pm = muls[d]
+                x = gedges[d][pos]
+                amt = fr(pert["amt"])
+                if pert["kind"] == "grid":
+                    y = (x + float(amt)) * pm
+                else:
+                    eps = float(fr(tol["rel"])) if tol["kind"] != "default" else 1e-9
+                    y = x * pm * (1 - float(amt) * eps)
+                theirs[d][pos] = y
+            unwrap = (lambda es: es[0]) if dim == 1 else (lambda es: es)
+            hist = S.histogram(unwrap(copy.deepcopy(mine)), bins=nested(start["bins"], dim, lambda p: num(fr(p))))
+            try:
+                other = S.histogram(unwrap(copy.deepcopy(theirs)), bins=nested(op["b"]["bins"], dim, lambda p: num(fr(p))))
+            except Exception:   # noqa  (the perturbed edges are increasing by construction)
+                continue
+            other.n_out_of_range = num(fr(op["b"]["oor"]))
+            snap = copy.deepcopy((hist.bins, hist.edges, hist.n_out_of_range, other.bins, other.edges, other.n_out_of_range))
+            raised = None
+            res = None
+            try:
+                with watchdog(LIMIT):
+                    if tol["kind"] == "default":
+                        res = hist.add(other, w)
+                    else:
+                        at = float(fr(tol["abs"])) * pm
+                        rt = float(fr(tol["rel"]))
+                        style = (k + mi) % 3
+                        if style == 0:
+                            res = hist.add(other, w, edges_abs_tol=at, edges_rel_tol=rt)
+                        elif style == 1:
+                            res = hist.add(other, w, at, rt)
+                        elif tol["kind"] == "rel":
+                            res = hist.add(other, weight=w, edges_rel_tol=rt)       # abs_tol keeps its default 0.0
+                        else:
+                            res = hist.add(other, edges_rel_tol=rt, edges_abs_tol=at, weight=w)
+            except Exception as exc:   # noqa
+                raised = exc_name(exc)
+            key = "histogram.add:tolerance=%s:edge-%s:dim=%d:%s" % (tol["kind"], pert["kind"], dim, mag_class(e))
+            detail = {"edges": repr(mine), "other_edges": repr(theirs), "tolerance": tol, "perturbation": pert,
+                      "magnitude_exponents": exps, "expected_ok": op["ok"], "raised": raised, "result": repr(res)}
+            if copy.deepcopy((hist.bins, hist.edges, hist.n_out_of_range, other.bins, other.edges,
+                              other.n_out_of_range)) != snap:
+                report(key + ":operand-modified", detail)
+                return
+            if op["ok"]:
+                r = op["r"]
+                if raised:
+                    report(key + ":equal-edges-rejected:" + raised, detail)
+                elif not (isinstance(res, S.histogram) and res.edges == hist.edges
+                          and close_nested(res.bins, nested(r["bins"], dim, fr), dim)
+                          and close(res.n_out_of_range, fr(r["oor"]))):
+                    report(key + ":result", detail)
+            elif raised is None:
+                report(key + ":different-edges-accepted", detail)
+            else:
+                d2 = extra.setdefault("add_unequal_edges_exceptions", {})
+                d2[raised] = d2.get(raised, 0) + 1
+
+
 def replay_histops(ctx, rec, k, report, extra):
     import lena.structures as S
     import lena.flow as F
     dim = len(rec["start"]["edges"])
+    if rec["ops"] and rec["ops"][0]["op"] == "add_tol" and len(rec["ops"]) == 1:
+        replay_addtol(S, rec["start"], rec["ops"][0], k, report, extra, TOL_MAGS)
+        return
     floats = (k % 3 == 1)
     tuples = (k % 4 == 3)
-    hist, edges0 = make_hist(S, rec["start"], floats, tuples)
+    em, cm = HIST_MAGS[(k // 3) % len(HIST_MAGS)]
+    E, C = (2.0 ** em if em else 1), (2.0 ** cm if cm else 1)
+    I = (E ** dim) * C                       # magnitude of the integral
+    hist, edges0 = make_hist(S, rec["start"], floats, tuples, E, C)
     where = "dim=%d" % dim
+    if em or cm:
+        where += ":edges-%s:contents-%s" % (mag_class(em), mag_class(cm))
+
+    def sval(p, f=False):
+        """a scale of the spec at the magnitude of this histogram"""
+        return num(fr(p), f) if I == 1 else float(fr(p)) * I
+
+    def cval(p, f=False):
+        return num(fr(p), f) if C == 1 else float(fr(p)) * C
+
+    def exp(p, mul):
+        x = fr(p)
+        return x if (x is None or mul == 1) else float(x) * mul
     for j, op in enumerate(rec["ops"]):
         name = op["op"]
         want = op["a"]
-        detail = {"start": rec["start"], "ops": rec["ops"][:j + 1], "floats": floats, "tuple_edges": tuples}
-        s = num(fr(op["s"]), floats and (k % 2 == 0))
+        detail = {"start": rec["start"], "ops": rec["ops"][:j + 1], "floats": floats, "tuple_edges": tuples,
+                  "magnitude_exponents": [em, cm]}
         try:
             with watchdog(LIMIT):
                 if name == "getscale":
                     got = hist.scale(recompute=True) if op["rc"] else hist.scale()
-                    if not close(got, fr(op["val"])):
+                    if not close(got, exp(op["val"], I), I):
                         report("histogram.scale():value:%s%s" % (where, ":recompute" if op["rc"] else ""),
                                dict(detail, observed=repr(got)))
                 elif name == "scale":
                     raised = None
                     try:
-                        do_scale(hist, s, k + j, S, F)
+                        do_scale(hist, sval(op["s"], floats and (k % 2 == 0)), k + j, S, F)
                     except Exception as exc:   # noqa
                         raised = exc_name(exc)
                     if op["ok"] and raised:
@@ -174,16 +286,17 @@ def replay_histops(ctx, rec, k, report, extra):
                         if raised is None:
                             return
                 elif name == "set_nevents":
+                    nev = cval(op["s"], floats and (k % 2 == 0))
                     if op["incl"] or (k + j) % 2:
-                        hist.set_nevents(s, include_out_of_range=op["incl"])
+                        hist.set_nevents(nev, include_out_of_range=op["incl"])
                     else:
-                        hist.set_nevents(s)
+                        hist.set_nevents(nev)
                     got = hist.get_nevents(include_out_of_range=op["incl"]) if op["incl"] else hist.get_nevents()
-                    if not close(got, fr(op["val"])):
+                    if not close(got, exp(op["val"], C), C):
                         report("histogram.set_nevents:get_nevents:%s:incl=%s" % (where, op["incl"]),
                                dict(detail, observed=repr(got)))
                 elif name == "add":
-                    other, oedges0 = make_hist(S, op["b"], floats, tuples)
+                    other, oedges0 = make_hist(S, op["b"], floats, tuples, E, C)
                     snap = (copy.deepcopy(hist.bins), hist.n_out_of_range, copy.deepcopy(other.bins), other.n_out_of_range)
                     raised = None
                     res = None
@@ -203,8 +316,8 @@ def replay_histops(ctx, rec, k, report, extra):
                         odim = len(r["edges"])
                         ok = (isinstance(res, S.histogram) and res is not hist and res is not other
                               and res.edges == edges0
-                              and close_nested(res.bins, nested(r["bins"], odim, fr), odim)
-                              and close(res.n_out_of_range, fr(r["oor"])))
+                              and close_nested(res.bins, nested(r["bins"], odim, lambda p: exp(p, C)), odim, C)
+                              and close(res.n_out_of_range, exp(r["oor"], C), C))
                         if not ok:
                             report("histogram.add:result:%s:%s:w=%d" % (where, op["kind"], op["w"]),
                                    dict(detail, observed=repr(res), oor=repr(getattr(res, "n_out_of_range", None))))
@@ -213,9 +326,11 @@ def replay_histops(ctx, rec, k, report, extra):
                             report("histogram.add:different-edges-accepted:%s:%s" % (where, op["kind"]),
                                    dict(detail, observed=repr(res)))
                         else:
-                            extra.setdefault("add_unequal_edges_exceptions", {})
-                            d = extra["add_unequal_edges_exceptions"]
+                            d = extra.setdefault("add_unequal_edges_exceptions", {})
                             d[raised] = d.get(raised, 0) + 1
+                elif name == "add_tol":
+                    # inside a generated history: at the magnitude of this history only
+                    replay_addtol(S, want, op, k, report, extra, [em])
         except Exception as exc:   # noqa
             report("histogram.%s:%s:raised:%s" % (name, where, exc_name(exc)), dict(detail, exception=repr(exc)))
             return
@@ -223,10 +338,10 @@ def replay_histops(ctx, rec, k, report, extra):
         if hist.edges != edges0:
             report("histogram.%s:edges-changed:%s" % (name, where), dict(detail, observed=repr(hist.edges)))
             return
-        if not close_nested(hist.bins, nested(want["bins"], dim, fr), dim):
+        if not close_nested(hist.bins, nested(want["bins"], dim, lambda p: exp(p, C)), dim, C):
             report("histogram.%s:bins:%s" % (name, where), dict(detail, observed=repr(hist.bins)))
             return
-        if not close(hist.n_out_of_range, fr(want["oor"])):
+        if not close(hist.n_out_of_range, exp(want["oor"], C), C):
             report("histogram.%s:n_out_of_range:%s" % (name, where), dict(detail, observed=repr(hist.n_out_of_range)))
             return
     last = rec["ops"][-1]
@@ -234,7 +349,7 @@ def replay_histops(ctx, rec, k, report, extra):
         # "makes the recomputed scale equal s"
         got = hist.scale(recompute=True)
         got2 = hist.scale()
-        if not close(got, fr(last["s"])) or not close(got2, fr(last["s"])):
+        if not close(got, exp(last["s"], I), I) or not close(got2, exp(last["s"], I), I):
             report("histogram.scale:recomputed:%s" % where, {"start": rec["start"], "ops": rec["ops"], "observed": repr(got)})
 
 
@@ -362,12 +477,23 @@ def _replay_convert(ctx, rec, k, report, tuples):
     h, conv = rec["hist"], rec["conv"]
     dim = len(h["edges"])
     floats = (k % 3 == 1)
-    hist, edges0 = make_hist_int(S, h, floats, tuples)
+    # magnitudes (powers of two, exact) of the edges and of the contents
+    em, cm = CONV_MAGS[(k // 2) % len(CONV_MAGS)]
+    E, C = (2.0 ** em if em else 1), (2.0 ** cm if cm else 1)
+    hist, edges0 = make_hist_int(S, h, floats, tuples, E, C)
     bins0 = copy.deepcopy(hist.bins)
     op = conv["op"]
     where = "dim=%d%s" % (dim, ":tuple-edges" if tuples else "")
+    if em or cm:
+        where += ":edges-%s:contents-%s" % (mag_class(em), mag_class(cm))
     detail = {"hist": h, "conv": dict((x, conv[x]) for x in ("op", "mode", "dup", "ranges")), "floats": floats,
-              "tuple_edges": tuples}
+              "tuple_edges": tuples, "magnitude_exponents": [em, cm]}
+    if em or cm:
+        # the expected output at this magnitude: coordinates * E, contents * C
+        conv = dict(conv)
+        conv["cols"] = [[x * (E if c < dim else C) for x in col] for c, col in enumerate(conv["cols"])]
+        conv["cells"] = [dict(c, v=c["v"] * C, e=[[a * E, b * E] for a, b in c["e"]]) for c in conv["cells"]]
+        conv["rows"] = [[x * E for x in r[:-1]] + [r[-1] * C] for r in conv["rows"]]
     try:
         with watchdog(LIMIT):
             if op == "to_graph":
@@ -658,4 +784,76 @@ def record_conversions(rnd, n, report):
             report("random:%s:value-not-from-histogram:dim=%d" % (op, dim), {"record": r, "value": repr(exc)})
         except Exception as exc:   # noqa
             report("random:%s:dim=%d:raised:%s" % (op, dim, exc_name(exc)), {"record": r, "exception": repr(exc)})
+    return out
+
+
+def record_addtol(rnd, n, report):
+    """hist.add with edge tolerances on random meshes at random magnitudes (records k = "addtol")."""
+    import lena.structures as S
+    out = []
+    for _ in range(n):
+        dim = rnd.randint(1, 3)
+        gedges = []
+        for _d in range(dim):
+            x = rnd.randint(-20, 8)
+            e = [x]
+            for _j in range(rnd.randint(1, 4)):
+                x += rnd.randint(1, 4)
+                e.append(x)
+            gedges.append(e)
+        tol = rnd.choice([{"kind": "default", "rel": [0, 0], "abs": [0, 1]},
+                          {"kind": "rel", "rel": [1, 1024], "abs": [0, 1]},
+                          {"kind": "abs", "rel": [0, 1], "abs": [1, 4]},
+                          {"kind": "both", "rel": [1, 1024], "abs": [1, 4]}])
+        kinds = ["none", "grid", "grid"] + ([] if tol["kind"] == "abs" else ["rel", "rel"])
+        pk = rnd.choice(kinds)
+        pert = {"axis": 0, "pos": 0, "kind": "none", "amt": [0, 1]}
+        if pk != "none":
+            ax = rnd.randrange(dim)
+            pert = {"axis": ax + 1, "pos": rnd.randint(1, len(gedges[ax])), "kind": pk,
+                    "amt": rnd.choice([[1, 8], [1, 4], [1, 2], [-1, 2], [-1, 8]]) if pk == "grid"
+                    else (rnd.choice([[1, 2], [2, 1], [1, 1024], [3, 1]]) if tol["kind"] == "default"
+                          else rnd.choice([[1, 2], [1, 1], [2, 1], [3, 4], [5, 4]]))}
+        exps = [rnd.choice([0, 0, rnd.randint(-990, 990), rnd.randint(-60, 60)]) for _d in range(dim)]
+        muls = [2.0 ** e for e in exps]
+        mine = [[x * muls[d] for x in gedges[d]] for d in range(dim)]
+        theirs = copy.deepcopy(mine)
+        pm = muls[pert["axis"] - 1] if pk != "none" else muls[0]
+        if pk != "none":
+            d, pos = pert["axis"] - 1, pert["pos"] - 1
+            x = gedges[d][pos]
+            amt = float(fr(pert["amt"]))
+            if pk == "grid":
+                theirs[d][pos] = (x + amt) * pm
+            else:
+                eps = float(fr(tol["rel"])) if tol["kind"] != "default" else 1e-9
+                theirs[d][pos] = x * pm * (1 - amt * eps)
+        shape = [len(e) - 1 for e in gedges]
+        it = [rnd.randint(-5, 5) for _i in range(200)]
+        try:
+            hist = S.histogram(mine[0] if dim == 1 else mine, bins=nested(_zeros(shape), dim, lambda _x: rnd.choice(it)))
+            other = S.histogram(theirs[0] if dim == 1 else theirs, bins=nested(_zeros(shape), dim, lambda _x: rnd.choice(it)))
+        except Exception:   # noqa
+            continue
+        want_bins = nested(_zeros(shape), dim, lambda _x: 0)
+        w = rnd.choice([1, 2, -1])
+        ok = True
+        try:
+            with watchdog(LIMIT):
+                if tol["kind"] == "default":
+                    res = hist.add(other, w)
+                else:
+                    res = hist.add(other, w, edges_abs_tol=float(fr(tol["abs"])) * pm, edges_rel_tol=float(fr(tol["rel"])))
+        except Exception as exc:   # noqa
+            ok = False
+            if exc_name(exc) == "Other:Hang":
+                report("random:histogram.add:tolerance:raised:Other:Hang", {"edges": repr(mine)})
+                continue
+        if ok:
+            exp = [a + w * b for a, b in zip(flat(hist.bins), flat(other.bins))]
+            if not isinstance(res, S.histogram) or flat(res.bins) != exp or res.edges != hist.edges:
+                report("random:histogram.add:tolerance:result", {"edges": repr(mine), "other": repr(theirs),
+                                                                  "observed": repr(res)})
+                continue
+        out.append({"k": "addtol", "edges": gedges, "pert": pert, "tol": tol, "ok": ok, "exps": exps})
     return out
